@@ -8,6 +8,14 @@
 //     endpoint in its current state (junk, mutated, sealed under a foreign key / protocol id,
 //     replay of an already accepted protected packet). Expectation: answer `none`, and (when the
 //     script brackets it with dumps) an unchanged state dump;
+//   * `note stale` : like `hostile`, for a genuine datagram that arrives for the first time but has fallen
+//     out of the 256-entry replay window;
+//   * `note expect-payload` : the next op hands a genuine payload datagram, for the first time and inside
+//     the window, to a live session: it must be surfaced;
+//   * `note expect-connected[:<signature>]` : the next op is a valid connection response for a server with a
+//     free slot below its limit: it must answer `connected …`;
+//   * `note rt` : the next two ops are an encode/decode (seal/open, write/read) pair that must round-trip;
+//   * `note mutated` : the next op decodes/opens a tampered sealed input: it must not answer `ok`;
 //   * `note setup-done` : end of the configuration prefix (kept by the shrinker).
 // ---------------------------------------------------------------------------------------------
 
